@@ -77,6 +77,17 @@ def special_forms():
                         settings={"namespaces": 'x="http://x.example/1" y="http://y.example/1"'})
     e.entities = {"list_name": "ents", "label": "${a}"}
     out.append(("entities+namespaces", e, {}))
+    # shared singletons: every form that mentions last-saved needs its own instance declaration
+    for v in range(4):
+        out.append((f"last-saved-{v}", gen.simple_form([("text", f"x{v}", {"label": "X", "default": "${last-saved#x%d}" % v}),
+                                                        ("integer", "y", {"label": "Y", "relevant": "${last-saved#y} > %d" % v}),
+                                                        ("begin group", f"g{v}", {"label": "G"}, [("text", "z", {"label": "Z ${x%d}" % v})])],
+                                                       settings={"form_id": f"ls{v}"}), {}))
+    # reading tables during generation must not change them: triggers + a name used in two groups (never referenced)
+    out.append(("trigger+same-name-in-two-groups", gen.simple_form([
+        ("text", "t0", {"label": "T"}), ("calculate", "c0", {"calculation": "${t0} + 1", "trigger": "${t0}"}),
+        ("begin group", "ga", {"label": "A"}, [("text", "comment", {"label": "C"})]),
+        ("begin group", "gb", {"label": "B"}, [("text", "comment", {"label": "C"}), ("background-geopoint", "bg", {"trigger": "${t0}"})])]), {}))
     for v in range(3):
         rows = [("text", "a", {"label": "A"}), ("text", "b", {"label": "B"})]
         for k in range(24):
@@ -195,18 +206,24 @@ def run_shard(ctx):
                          common.witness(form, case=cid, history="alternate+gc"))
         ctx.case(sig=f"confusable-gc|{rep}|{hs}")
     # -- pass 4: regeneration
-    for cid, kind, form, kw in batch[:: (3 if ctx.tier == "quick" else 1)]:
+    for cid, kind, form, kw in [b for k, b in enumerate(batch) if b[1] == "special" or ctx.tier != "quick" or k % 3 == 0]:
         o = conv(form, kw)
         if not o.ok:
             continue
         sv = o.result._survey
-        xs = [sv.to_xml(validate=False, pretty_print=False) for _ in range(3)]
+        xs = []
+        for _ in range(3):
+            try:
+                xs.append(sv.to_xml(validate=False, pretty_print=False))
+            except Exception as e:  # noqa: BLE001 - a survey that rendered once must render again
+                xs.append(f"<<raised {type(e).__name__}: {e}>>")
         ctx.ctr("digest_comparisons", 3)
         ctx.case(sig=f"{cid}|regen|{hs}")
         if not (xs[0] == xs[1] == xs[2] == o.xform):
             which = [i for i, x in enumerate(xs) if x != o.xform]
             from .. import xdiff
-            ctx.viol(f"regeneration:to_xml-not-idempotent:{kind}", f"{cid}: survey.to_xml() call #{which[0] + 2} differs from the first: {xdiff.diffs(o.xform, xs[which[0]])[:2]}",
+            detail = xs[which[0]][:200] if xs[which[0]].startswith("<<raised") else xdiff.diffs(o.xform, xs[which[0]])[:2]
+            ctx.viol(f"regeneration:to_xml-not-idempotent:{kind}", f"{cid}: survey.to_xml() call #{which[0] + 2} differs from the first: {detail}",
                      common.witness(form, case=cid, history="to_xml x3"))
         same = render.to_dict(form.to_sheets(), **kw)
         o1 = drive.call_convert(same, **form.args)
@@ -244,6 +261,9 @@ def run_shard(ctx):
                      common.witness(form, case=name, history="to_xml x3 on a survey that is refused"))
     # -- pass 5: threads
     thread_pass(ctx, batch, base, hs, inject=(ctx.tier == "thorough"))
+    # focused pass: only the forms that touch process-wide singletons / shared helpers, many times over, so that two such conversions overlap often
+    focus = [b for b in batch if b[1] in ("special", "confusable")]
+    thread_pass(ctx, focus * (4 if ctx.tier == "quick" else 12), base, hs, inject=False, label="focus")
     # -- residue
     tables1 = hooks.snapshot_tables()
     ch = hooks.diff_tables(tables0, tables1)
@@ -261,7 +281,7 @@ def run_shard(ctx):
         ctx.viol(f"cache-not-transparent:{fn}", msg, {"klass": "hook"})
 
 
-def thread_pass(ctx, batch, base, hs, inject=False):
+def thread_pass(ctx, batch, base, hs, inject=False, label="all"):
     nthreads = 8 if ctx.tier == "quick" else 16
     old = sys.getswitchinterval()
     sys.setswitchinterval(1e-6)
@@ -297,9 +317,9 @@ def thread_pass(ctx, batch, base, hs, inject=False):
         ctx.ctr("digest_comparisons")
         fd = first_diff(base[cid], d)
         if fd:
-            ctx.viol(f"schedule-dependence:{nthreads}-threads:{fd}", f"{cid}: {fd} differs when converted concurrently in thread {t} (hash seed {hs})",
+            ctx.viol(f"schedule-dependence:{nthreads}-threads:{fd}", f"{cid}: {fd} differs when converted concurrently in thread {t} (hash seed {hs}, pass {label})",
                      common.witness(forms[cid], case=cid, history=f"{nthreads} threads"))
-    ctx.case(sig=f"threads|{nthreads}|{hs}", n=len(results))
+    ctx.case(sig=f"threads|{nthreads}|{hs}|{label}", n=len(results))
 
 
 def start_yield_injection(rng, prob):
